@@ -40,6 +40,7 @@ type c16 struct {
 type c16stats struct {
 	Exec, W1, W2, W3, Cold              int
 	Goroutines, Ops                     int
+	MaxG                                int
 	PorcupineOK, PorcupineUnknown       int
 	CallbackFaults, Stalls              int
 	RaceReportsLibrary, RaceReportsSeen int
@@ -82,7 +83,7 @@ func (c *c16) Stats() map[string]any {
 	gets, reuses, cross, drops, notLast := simrt.PoolStats()
 	return map[string]any{
 		"executions": c.st.Exec, "w1_concurrent_parses": c.st.W1, "w2_concurrent_readers": c.st.W2, "w3_collection_histories": c.st.W3,
-		"cold_start_runs": c.st.Cold, "goroutines_started": c.st.Goroutines, "collection_operations": c.st.Ops,
+		"cold_start_runs": c.st.Cold, "goroutines_started": c.st.Goroutines, "max_goroutines_in_one_run": c.st.MaxG, "collection_operations": c.st.Ops,
 		"porcupine_ok": c.st.PorcupineOK, "porcupine_unknown": c.st.PorcupineUnknown, "callback_faults_injected": c.st.CallbackFaults,
 		"stalled_goroutine_runs": c.st.Stalls, "race_build": raceBuild, "race_reports_in_library": c.st.RaceReportsLibrary,
 		"histories_with_overlapping_operations": c.st.OverlappingOps, "per_collection": c.st.PerCollection,
@@ -271,6 +272,9 @@ func (c *c16) DumpCase(seed uint64, idx int) []Case {
 			ex.Cold = true
 		}
 		n := 2 + r.n(5)
+		if r.chance(20) {
+			n = 8 + r.n(17) // "any number": a crowd of callers now and then
+		}
 		cs.Project = pick()
 		for i := 1; i < n; i++ {
 			if r.chance(300) {
@@ -300,6 +304,9 @@ func (c *c16) DumpCase(seed uint64, idx int) []Case {
 			}
 		}
 		n := 2 + r.n(7)
+		if r.chance(20) {
+			n = 12 + r.n(20)
+		}
 		kinds := []string{"ToJson", "ToJsonIndent", "Title", "Collections", "ToJson"}
 		for i := 0; i < n; i++ {
 			ex.Readers = append(ex.Readers, kinds[r.n(len(kinds))])
@@ -373,6 +380,9 @@ func (c *c16) endSim(record bool, workload string, nG int) ([]simrt.Decision, ui
 	if record {
 		c.st.Exec++
 		c.st.Goroutines += nG
+		if nG > c.st.MaxG {
+			c.st.MaxG = nG
+		}
 		key := hash64(workload) ^ h
 		c.st.Interleavings[key] = true
 		for _, d := range dec {
